@@ -84,13 +84,22 @@ class NeedSplit(Exception):
         self.why = why
 
 
+class DependsOn(Exception):
+    """A decision of the code depends on a symbol the scenario declares unreliable (e.g. a stored count that concurrent operations move)."""
+
+    def __init__(self, sym: str, form: str):
+        self.sym = sym
+        self.form = form
+
+
 class Mismatch(Exception):
     """A statement writes a tracked table with a selection that is recognisably NOT the canonical one."""
 
-    def __init__(self, table: str, st: N, what: str):
+    def __init__(self, table: str, st: N, what: str, kind: str = ''):
         self.table = table
         self.st = st
         self.what = what
+        self.kind = kind
 
 
 def lin_of(v: Any) -> Optional[Lin]:
@@ -119,6 +128,7 @@ class Domain:
         self.maybe_equal = {frozenset(p) for p in maybe_equal}
         self.labels = labels or {}
         self.split_budget = split_budget
+        self.unreliable: Set[str] = set()
 
 
 class Case:
@@ -196,6 +206,9 @@ class Case:
         if L.is_const():
             return (L.const > 0) - (L.const < 0)
         syms = sorted(L.coef)
+        for x in syms:
+            if x in self.dom.unreliable:
+                raise DependsOn(x, repr(L))
         s = 1 if L.coef[syms[0]] > 0 else -1
         P = Lin({k: int(v) * s for k, v in L.coef.items()}, 0)
         t = -int(L.const) * s  # L = s * (P - t)
@@ -256,8 +269,8 @@ class Case:
             cs = self.clone()
             cs.pv[key] = iv
             if iv[0] is not None and iv[0] == iv[1]:
-                for x in syms:
-                    if abs(int(P.coef[x])) == 1 and x not in self.dom.ivals:
+                for x in sorted(syms, key=lambda y: (y in self.dom.ivals, y)):
+                    if abs(int(P.coef[x])) == 1:
                         c = int(P.coef[x])
                         rest = Lin({k: v for k, v in P.coef.items() if k != x}, 0)
                         cs.subst[x] = (Lin({}, iv[0]) - rest).scale(c)  # x = (t - rest) / c, c = +-1
@@ -1533,3 +1546,386 @@ def own_transition(ex: AbsExec) -> Tuple[bool, Any, Any]:
     pre = E.res(EnumVal('own_state'))
     post = E.res(post)
     return (post != pre and post in TERMINAL), pre, post
+
+
+# --------------------------------------------------------------------------------------
+# commit_batch_update
+# --------------------------------------------------------------------------------------
+STAGING = 'job_groups_inst_coll_staging'
+# classes of one parent edge of a child of the committed update: (state of the parent's job row | None = no job row, parent belongs to an earlier update?)
+PARENT_CLASSES: List[Tuple[Optional[str], bool]] = [(s_, True) for s_ in STATES] + [(None, True), ('Pending', False)]
+
+
+def pc_sym(pc: Tuple[Optional[str], bool]) -> str:
+    return f'm[{"no job row" if pc[0] is None else pc[0]}{"" if pc[1] else ", same update"}]'
+
+
+def _agg_nodes(e: N) -> List[N]:
+    return [x for x in e.walk() if x.kind == 'func' and x.name in ('SUM', 'COUNT', 'MAX', 'MIN', 'AVG') and not getattr(x, 'over', None)]
+
+
+def _lin_atom(ex: AbsExec, c: N, frame: Frame, colsym: Callable[[N], Optional[Lin]]) -> Optional[Tuple[str, Lin]]:
+    """Normal form of an order atom `a op b` between linear expressions:  ('>=0' | '>0' | '=0', L)."""
+    if c.kind != 'bin' or c.op not in ('<', '<=', '>', '>=', '='):
+        return None
+
+    def env(n: N) -> Any:
+        if n.kind == 'col':
+            v = colsym(n)
+            if v is not None:
+                return v
+        return ex.var_env(frame)(n)
+    try:
+        a, b = lin_of(ex.E.ev(c.left, env)), lin_of(ex.E.ev(c.right, env))
+    except (Undecided, AnalysisError):
+        return None
+    if a is None or b is None:
+        return None
+    d = ex.case.norm(a - b)
+    if c.op == '>=':
+        return '>=0', d
+    if c.op == '>':
+        return '>0', d
+    if c.op == '<=':
+        return '>=0', -d
+    if c.op == '<':
+        return '>0', -d
+    return '=0', d
+
+
+def commit_scenario(prog: sf.SqlProgram) -> Tuple[Scenario, Dict[str, Any]]:
+    """Roles: the update row (B, U) with its job count NU and first job id S; the batch row; a generic job group SG that has staging
+    rows for this update (sum of their n_jobs: SS); a generic job CH of the update with its parent edges abstracted to COUNT CLASSES:
+    m[c] = number of its parents in class c (state of the parent's job row x earlier / same update, or `no job row`).  The stored
+    n_pending_parents of CH is the free symbol v0 (anything between the number of parents and that number minus the parents that
+    finished while the update was open)."""
+    B, SG, CH = Sym('batch'), Sym('staged_group'), Sym('job_of_update')
+    U = Lin({'update_id': 1}, 0)
+    enums = {'committed': [0, 1], 'child_cancelled': [0, 1]}
+    ivals: Dict[str, Tuple[Optional[int], Optional[int]]] = {'update_id': (1, None), 'NU': (0, None), 'SR': (0, None), 'SS': (0, None), 'd_earlier': (1, None), 'd_same': (0, None), 'one_row': (1, None)}
+    labels = {'update_id': 'update id', 'NU': 'batch_updates.n_jobs of the update', 'SR': 'staged jobs of the root group for this update', 'SS': 'sum of the staging rows of the group for this update',
+              'committed': 'batch_updates.committed before', 'child_cancelled': 'job.cancelled before', 'v0': 'stored jobs.n_pending_parents before the commit', 'one_row': 'n_jobs of ONE staging row (one inst_coll / token) of the group',
+              'd_earlier': 'start_job_id of the update minus the id of an earlier parent', 'd_same': 'id of a same-update parent minus start_job_id of the update'}
+    for pc in PARENT_CLASSES:
+        ivals[pc_sym(pc)] = (0, None)
+        labels[pc_sym(pc)] = f'parents of the job with {"no job row" if pc[0] is None else "state " + pc[0]}{"" if pc[1] else " (same update)"}'
+    dom = Domain(enums, ivals, labels=labels, split_budget=1)
+    dom.unreliable = {'v0'}
+    scn = Scenario(dom, full_schema(prog))
+    scn.bind = {'B': B, 'U': U}
+    scn.keycols = {'batch_updates': ('batch_id', 'update_id'), 'batches': ('id',), 'job_groups': ('batch_id', 'job_group_id'), 'jobs': ('batch_id', 'job_id'),
+                   STAGING: ('batch_id', 'update_id', 'job_group_id', 'inst_coll', 'token'), 'job_parents': ('batch_id', 'job_id', 'parent_id')}
+    S = Lin({'S': 1}, 0)
+    scn.add_row('batch_updates', 'u', dict(batch_id=B, update_id=U, committed=EnumVal('committed'), n_jobs=Lin({'NU': 1}, 0), start_job_id=S, time_committed=Sym('t_committed_before')), key=(B, U))
+    scn.add_row('batches', 'b', dict(id=B, state=Sym('batch_state_before'), n_jobs=Lin({'NB': 1}, 0), time_completed=Sym('t_completed_before')), key=(B,))
+    scn.add_row('job_groups', 'staged', dict(batch_id=B, job_group_id=SG, state=Sym('group_state_before'), n_jobs=Lin({'NG': 1}, 0), time_completed=Sym('t_completed_before')), key=(B, SG))
+    scn.add_row('jobs', 'child', dict(batch_id=B, job_id=CH, state='Pending', n_pending_parents=Lin({'v0': 1}, 0), cancelled=EnumVal('child_cancelled')), key=(B, CH))
+
+    # (1) the staged job count of the ROOT group for this update
+    def staging_sum(ex: AbsExec, st: N, frame: Frame) -> Optional[List[Any]]:
+        if st.frm is None or [t.lower() for t in sf.table_names(st.frm)] != [STAGING] or len(st.cols) != 1 or not _agg_nodes(st.cols[0][0]):
+            return None
+        sel = ex.build_sel(st.frm, st.where, frame)
+        alias = list(sel.insts)[0]
+        pins = {c: [value_key(v) for v in sel.pinned(alias, c)] for c in ('batch_id', 'update_id', 'job_group_id', 'inst_coll', 'token')}
+        aggs = _agg_nodes(st.cols[0][0])
+        canonical = (pins['batch_id'] == [value_key(B)] and pins['update_id'] == [value_key(U)] and pins['job_group_id'] == [value_key(0)] and not pins['inst_coll'] and not pins['token']
+                     and not sel.residual and not st.group and len(aggs) == 1 and aggs[0].name == 'SUM' and text(aggs[0].args[0]).lower().split('.')[-1] == 'n_jobs')
+        symname = 'SR' if canonical else 'sum{' + text(st.cols[0][0])[:30] + ' | ' + ','.join(f'{k}={v}' for k, v in pins.items() if v) + '}'
+        node = sf.subst(st.cols[0][0], lambda n: N('lit', value=Lin({symname: 1}, 0)) if n in aggs or (n.kind == 'func' and n.name == aggs[0].name and text(n) == text(aggs[0])) else None)
+        return [ex.value_or_unk(node, frame)]
+    scn.select_hooks.append(staging_sum)
+
+    # (2) job_groups joined with the per-group sums of the staging rows of this update
+    def groups_update(ex: AbsExec, st: N, frame: Frame) -> bool:
+        if 'job_groups' not in ex._written_tracked(st):
+            return False
+        sel = ex.build_sel(st.frm, st.where, frame)
+        aggs = [i for i in sel.insts.values() if i.agg is not None]
+        tabs = [i for i in sel.insts.values() if i.agg is None and not ex._ignorable(i)]
+        if len(aggs) != 1 or len(tabs) != 1 or tabs[0].table != 'job_groups':
+            return False
+        jga, d = tabs[0].alias, aggs[0]
+        sub = d.agg
+        if sub.frm is None or [t.lower() for t in sf.table_names(sub.frm)] != [STAGING] or sub.having is not None or sub.limit is not None or getattr(sub, 'union', None):
+            raise AnalysisError(f'commit_batch_update: derived table of `{text(st)[:60]}` is not an aggregate over {STAGING}')
+        if d.jtype == 'LEFT':
+            raise Mismatch('job_groups', st, 'the per-group staging sums are LEFT-joined: every job group of every batch is written')
+        isel = ex.build_sel(sub.frm, sub.where, frame)
+        ia = list(isel.insts)[0]
+        pins = {c: [value_key(v) for v in isel.pinned(ia, c)] for c in scn.keycols[STAGING]}
+        problems = []
+        if pins['batch_id'] != [value_key(B)] or pins['update_id'] != [value_key(U)]:
+            problems.append(f'the staging rows are not restricted to this batch and this update (pins {dict((k, v) for k, v in pins.items() if v)})')
+        if pins['job_group_id'] or pins['inst_coll'] or pins['token'] or isel.residual:
+            problems.append('the staging rows are filtered by ' + ', '.join([k for k in ('job_group_id', 'inst_coll', 'token') if pins[k]] + [text(c) for c in isel.residual]))
+        gcols = sorted(g.parts[-1].lower() for g in sub.group if g.kind == 'col')
+        if len(gcols) != len(sub.group):
+            raise AnalysisError('GROUP BY expression')
+        grouped_by_group = 'job_group_id' in gcols and set(gcols) <= {'batch_id', 'update_id', 'job_group_id'}
+        # outer join keys
+        outcol = {}
+        for (c, a), name in zip(sub.cols, d.cols):
+            outcol[name] = c
+        jg_cls = {col: [x for x in sel.class_of(jga, col) if x[0] == 'c' and x[1] == d.alias] for col in ('batch_id', 'job_group_id')}
+
+        def is_groupcol(name: str, want: str) -> bool:
+            c = outcol.get(name)
+            return c is not None and c.kind == 'col' and c.parts[-1].lower() == want
+        key_ok = any(is_groupcol(x[2], 'job_group_id') for x in jg_cls['job_group_id'])
+        batch_ok = any(is_groupcol(x[2], 'batch_id') for x in jg_cls['batch_id']) or [value_key(v) for v in sel.pinned(jga, 'batch_id')] == [value_key(B)]
+        if not key_ok or not batch_ok or sel.residual:
+            raise Mismatch('job_groups', st, 'the staging sums are not joined to the job group row by (batch_id, job_group_id)' + (f' / extra condition {text(sel.residual[0])}' if sel.residual else ''))
+        if problems:
+            raise Mismatch('job_groups', st, '; '.join(problems))
+        drow: Dict[str, Any] = {}
+        for name, c in outcol.items():
+            if c.kind == 'col':
+                drow[name] = {'batch_id': B, 'job_group_id': SG, 'update_id': U}.get(c.parts[-1].lower(), UNK)
+                continue
+            ags = _agg_nodes(c)
+            canonical = grouped_by_group and len(ags) == 1 and ags[0].name == 'SUM' and text(ags[0].args[0]).lower().split('.')[-1] == 'n_jobs'
+            symname = 'SS' if canonical else ('sum over ' + ('the whole update' if not grouped_by_group else 'the group') + ' of ' + (text(ags[0].args[0]) if ags else text(c))[:30])
+            node = sf.subst(c, lambda n: N('lit', value=Lin({symname: 1}, 0)) if any(n is a_ for a_ in ags) or (ags and n.kind == 'func' and text(n) == text(ags[0])) else None)
+            drow[name] = ex.value_or_unk(node, frame)
+        row = ex.rows[('job_groups', 'staged')]
+        rowenv = {jga: ('job_groups', row, tabs[0].cols), d.alias: (None, drow, d.cols)}
+        for a, i in sel.insts.items():
+            rowenv.setdefault(a, (i.table, None, i.cols))
+        for c, v in st.sets:
+            parts = [p.lower().strip('`') for p in c.parts]
+            if len(parts) > 1 and parts[-2] not in (jga, 'job_groups'):
+                raise AnalysisError(f'UPDATE target {text(c)}')
+            row[parts[-1]] = ex.value_or_unk(v, frame, rowenv)
+        ex.writes.append((frame.routine, st, ('job_groups', 'staged')))
+        return True
+    scn.update_hooks.append(groups_update)
+
+    # (3) job_groups joined DIRECTLY with the staging rows: one arbitrary row per group is used (several rows per group: inst_coll x token)
+    def direct(ex: AbsExec, m: Match, st: N):
+        sa = m.alias['ST']
+        return [(('job_groups', 'staged'), {sa: (STAGING, dict(batch_id=B, update_id=U, job_group_id=SG, n_jobs=Lin({'one_row': 1}, 0)), scn.schema.get(STAGING, []))})]
+    scn.update_patterns['job_groups'] = [(Pattern('the job groups that have staging rows for this update', {'JG': 'job_groups', 'ST': STAGING},
+                                                  [['JG.batch_id', 'ST.batch_id', '$B'], ['JG.job_group_id', 'ST.job_group_id'], ['ST.update_id', '$U']]), direct)]
+
+    # (4) the recount of the jobs of the update
+    def recount(ex: AbsExec, st: N, frame: Frame) -> bool:
+        if 'jobs' not in ex._written_tracked(st):
+            return False
+        sel = ex.build_sel(st.frm, st.where, frame)
+        tabs = [i for i in sel.insts.values() if i.agg is None and not ex._ignorable(i)]
+        aggs = [i for i in sel.insts.values() if i.agg is not None]
+        if len(tabs) != 1 or tabs[0].table != 'jobs':
+            return False
+        ja = tabs[0].alias
+        if [value_key(v) for v in sel.pinned(ja, 'job_id')]:
+            return False  # a single job: ordinary key look-up
+        # selection: this batch, the id range reserved by the update
+        jid = Lin({'@job_id': 1}, 0)
+
+        def colsym(n: N) -> Optional[Lin]:
+            parts = [p.lower().strip('`') for p in n.parts]
+            if parts[-1] == 'job_id' and (len(parts) == 1 or parts[-2] in (ja, 'jobs')):
+                return jid
+            return None
+        want = {('>=0', repr(ex.case.norm(jid - S))), ('>0', repr(ex.case.norm(S + Lin({'NU': 1}, 0) - jid)))}
+        got = set()
+        for c in sel.residual:
+            at = _lin_atom(ex, c, frame, colsym)
+            if at is None:
+                raise AnalysisError(f'commit_batch_update: condition `{text(c)[:60]}` of the jobs update is not a range condition the abstraction understands')
+            got.add((at[0], repr(at[1])))
+        problems = []
+        if [value_key(v) for v in sel.pinned(ja, 'batch_id')] != [value_key(B)]:
+            problems.append('jobs of every batch are selected (jobs.batch_id is not pinned to in_batch_id)')
+        if got != want:
+            if got < want:
+                problems.append(f'the jobs updated are not restricted to the id range reserved by this update (start_job_id <= job_id < start_job_id + n_jobs): conditions found {sorted(got) or "none"}. '
+                                'Running or finished jobs of earlier updates are re-evaluated (a Running job set back to Ready is executed twice)')
+            else:
+                raise AnalysisError(f'commit_batch_update: range conditions {sorted(got)} of the jobs update are not the canonical ones {sorted(want)}')
+        if problems:
+            raise Mismatch('jobs', st, '; '.join(problems), kind='other batch' if 'every batch' in problems[0] else 'range')
+        row = ex.rows[('jobs', 'child')]
+        rowenv: Dict[str, Any] = {ja: ('jobs', row, tabs[0].cols)}
+        for d in aggs:
+            info = _parents_aggregate(ex, scn, sel, d, ja, frame, st, B, CH, S)
+            if info is None:
+                return True  # INNER join and no edge row: this job is not updated by the statement
+            rowenv[d.alias] = (None, info, d.cols)
+        for a, i in sel.insts.items():
+            rowenv.setdefault(a, (i.table, None, i.cols))
+        for c, v in st.sets:
+            parts = [p.lower().strip('`') for p in c.parts]
+            ta = parts[-2] if len(parts) > 1 else (ja if parts[-1] in tabs[0].cols else None)
+            if ta is None:
+                raise AnalysisError(f'cannot resolve UPDATE target {text(c)}')
+            if ta not in (ja, 'jobs'):
+                if ta in sel.insts and ex._ignorable(sel.insts[ta]):
+                    continue
+                raise AnalysisError(f'UPDATE target {text(c)}')
+            row[parts[-1]] = ex.value_or_unk(v, frame, rowenv)
+        ex.writes.append((frame.routine, st, ('jobs', 'child')))
+        return True
+    scn.update_hooks.append(recount)
+    return scn, {'B': B, 'U': U, 'S': S, 'CH': CH, 'SG': SG}
+
+
+def _parents_aggregate(ex: AbsExec, scn: Scenario, sel: Sel, d: Inst, ja: str, frame: Frame, st: N, B: Sym, CH: Sym, S: Lin) -> Optional[Dict[str, Any]]:
+    """Abstract value of the derived table `per child: aggregates over its parent edges` for the generic child.
+    None = no row and the table is INNER-joined."""
+    sub = d.agg
+    if sub.having is not None or sub.limit is not None or getattr(sub, 'union', None) or sub.frm is None:
+        raise AnalysisError('recount: derived table shape')
+    isel = ex.build_sel(sub.frm, sub.where, frame)
+    byt = {}
+    for a, i in isel.insts.items():
+        if i.agg is not None or i.table in byt:
+            raise AnalysisError('recount: derived table over unexpected tables')
+        byt[i.table] = a
+    if set(byt) - {'job_parents', 'jobs'} or 'job_parents' not in byt:
+        raise AnalysisError(f'recount: derived table is not driven from job_parents (tables {sorted(byt)})')
+    ea, pa = byt['job_parents'], byt.get('jobs')
+    if isel.insts[ea].jtype == 'LEFT':
+        raise AnalysisError('recount: job_parents is the optional side of a join')
+    # the parents' job rows are joined by (batch_id, parent_id)
+    p_left = False
+    if pa is not None:
+        pin = isel.insts[pa]
+        p_left = pin.jtype == 'LEFT'
+        if p_left:
+            osel = SelBuilder(scn.schema, lambda n: n in frame.vars, lambda e: (_ for _ in ()).throw(Undecided('v'))).build(sub.frm, None)
+            jsel = Sel()
+            jsel.insts = isel.insts
+            b = SelBuilder(scn.schema, lambda n: n in frame.vars, lambda e: (_ for _ in ()).throw(Undecided('v')))
+            for c in pin.on:
+                b._conjunct(jsel, c, None)
+            src = jsel
+        else:
+            src = isel
+        ok_j = ('c', ea, 'parent_id') in src.class_of(pa, 'job_id') and ('c', ea, 'batch_id') in src.class_of(pa, 'batch_id') and not (p_left and src.residual)
+        extra = [x for col in ('job_id', 'batch_id') for x in src.class_of(pa, col) if x[0] == 'c' and x not in (('c', pa, col), ('c', ea, 'parent_id' if col == 'job_id' else 'batch_id'))
+                 and not (x[0] == 'c' and x[1] in (ea, pa) and x[2] == 'batch_id')]
+        if not ok_j or extra:
+            raise Mismatch('jobs', st, 'the recount does not read each parent\'s job row through job_parents.parent_id (join of jobs with job_parents on (batch_id, parent_id) expected)', kind='per child')
+    # grouping and outer join: per child
+    gcols = sorted((g.parts[-1].lower() if g.kind == 'col' else '?') for g in sub.group)
+    gq = [g for g in sub.group if g.kind == 'col' and (len(g.parts) == 1 or g.parts[-2].lower().strip('`') in (ea, 'job_parents'))]
+    if gcols != ['batch_id', 'job_id'] or len(gq) != 2:
+        raise Mismatch('jobs', st, f'the parents are aggregated per {gcols}, expected per child (job_parents.batch_id, job_parents.job_id): each child must be recounted over its own parents only', kind='per child')
+    outcol = {name: c for (c, a), name in zip(sub.cols, d.cols)}
+    if d.jtype == 'LEFT':
+        jsel = Sel()
+        jsel.insts = sel.insts
+        b = SelBuilder(scn.schema, lambda n: n in frame.vars, lambda e: (_ for _ in ()).throw(Undecided('v')))
+        for c in d.on:
+            b._conjunct(jsel, c, None)
+        src2, extra_res = jsel, jsel.residual
+    else:
+        src2, extra_res = sel, []
+
+    def joined(col: str) -> bool:
+        for x in src2.class_of(ja, col):
+            if x[0] == 'c' and x[1] == d.alias:
+                c = outcol.get(x[2])
+                if c is not None and c.kind == 'col' and c.parts[-1].lower() == col and (len(c.parts) == 1 or c.parts[-2].lower().strip('`') in (ea, 'job_parents')):
+                    return True
+        return False
+    if not (joined('batch_id') and joined('job_id')) or extra_res:
+        raise Mismatch('jobs', st, 'the per-child aggregates are not joined to the child by (batch_id, job_id)', kind='per child')
+    # which edge classes pass the WHERE of the derived table; range atoms on the child's own id are the canonical (redundant) ones or absent
+    jid = Lin({'@job_id': 1}, 0)
+
+    def colsym(n: N) -> Optional[Lin]:
+        parts = [p.lower().strip('`') for p in n.parts]
+        if parts[-1] == 'job_id' and len(parts) > 1 and parts[-2] in (ea, 'job_parents'):
+            return jid
+        return None
+    want = {('>=0', repr(ex.case.norm(jid - S))), ('>0', repr(ex.case.norm(S + Lin({'NU': 1}, 0) - jid)))}
+    per_class: List[N] = []
+    if [value_key(v) for v in isel.pinned(ea, 'batch_id')] not in ([value_key(B)], []):
+        raise Mismatch('jobs', st, 'the parent edges are read from another batch', kind='other batch')
+    for c in isel.residual:
+        refs_child = any(x.kind == 'col' and colsym(x) is not None for x in c.walk())
+        if refs_child:
+            at = _lin_atom(ex, c, frame, colsym)
+            if at is None or (at[0], repr(at[1])) not in want:
+                raise AnalysisError(f'recount: condition `{text(c)[:60]}` on the child id inside the derived table is not one of the canonical range conditions')
+            continue
+        per_class.append(c)
+    total = Lin({}, 0)
+    passing: List[Tuple[Tuple[Optional[str], bool], Dict[str, Any]]] = []
+    for pc in PARENT_CLASSES:
+        state, earlier = pc
+        pid = (S - Lin({'d_earlier': 1}, 0)) if earlier else (S + Lin({'d_same': 1}, 0))
+        erow = dict(batch_id=B, job_id=CH, parent_id=pid)
+        if state is None:
+            if pa is not None and not p_left:
+                continue  # INNER join with the parents' job rows: an edge without job row is dropped
+            prow: Optional[Dict[str, Any]] = {c_: None for c_ in scn.schema.get('jobs', [])}
+        else:
+            prow = dict({c_: UNK for c_ in scn.schema.get('jobs', [])}, batch_id=B, job_id=pid, state=state, update_id=UNK)
+        env = {ea: ('job_parents', erow, ['batch_id', 'job_id', 'parent_id'])}
+        if pa is not None:
+            env[pa] = ('jobs', prow, scn.schema.get('jobs', []))
+        ok = True
+        for c in per_class:
+            try:
+                if not _truth(ex.value(c, frame, env)):
+                    ok = False
+                    break
+            except Undecided as u:
+                raise AnalysisError(f'recount: whether a parent edge passes `{text(c)[:60]}` depends on {u}') from u
+        if ok:
+            passing.append((pc, env))
+            total = total + Lin({pc_sym(pc): 1}, 0)
+    exists = ex.case.sign(total) > 0
+    if not exists:
+        if d.jtype != 'LEFT':
+            return None
+        return {name: None for name in d.cols}
+    out: Dict[str, Any] = {}
+    for name, c in outcol.items():
+        if c.kind == 'col':
+            out[name] = {'batch_id': B, 'job_id': CH}.get(c.parts[-1].lower(), UNK)
+            continue
+        ags = _agg_nodes(c)
+        repl: Dict[int, Any] = {}
+        for a_ in ags:
+            if a_.name == 'COUNT' and a_.args and a_.args[0].kind == 'star':
+                repl[id(a_)] = total
+                continue
+            if a_.name not in ('SUM', 'COUNT') or len(a_.args) != 1 or getattr(a_, 'distinct', False):
+                raise AnalysisError(f'recount: aggregate {text(a_)[:40]} is outside the abstraction')
+            lin, nonnull = Lin({}, 0), Lin({}, 0)
+            for pc, env in passing:
+                try:
+                    v = ex.value(a_.args[0], frame, env)
+                except Undecided as u:
+                    raise AnalysisError(f'recount: aggregated expression `{text(a_.args[0])[:50]}` depends on {u}') from u
+                if v is None:
+                    continue
+                if not isinstance(v, int):
+                    raise AnalysisError(f'recount: aggregated expression `{text(a_.args[0])[:50]}` is not a 0/1 or integer constant per parent class')
+                nonnull = nonnull + Lin({pc_sym(pc): 1}, 0)
+                lin = lin + Lin({pc_sym(pc): (v if a_.name == 'SUM' else 1)}, 0)
+            if a_.name == 'COUNT':
+                repl[id(a_)] = lin
+            else:
+                repl[id(a_)] = lin if ex.case.sign(nonnull) > 0 else None
+        node = sf.subst(c, lambda n: None)  # fresh copy is not needed: substitute by identity on the original
+        mapping = repl
+
+        def sub_agg(n: N, mapping=mapping, ags=ags) -> Optional[N]:
+            for a_ in ags:
+                if n.kind == 'func' and n.name == a_.name and text(n) == text(a_):
+                    return N('lit', value=mapping[id(a_)])
+            return None
+        out[name] = ex.value_or_unk(sf.subst(c, sub_agg), frame)
+    return out
+
+
+def run_commit(prog: sf.SqlProgram, scn: Scenario, syms: Dict[str, Any], case: Case) -> AbsExec:
+    ex = AbsExec(prog, scn, case)
+    ex.call('commit_batch_update', {'in_batch_id': syms['B'], 'in_update_id': syms['U'], 'in_timestamp': Sym('commit_timestamp')})
+    return ex
